@@ -82,7 +82,7 @@ def judge_traces(ctx, trs, need_sqrt=0, owns_k1=False):
         if v[0] == "reject":
             e = tr["ev"][v[1] - 1]
             ctx.violation(v[2], {"seq": "".join(tr["seq"]), "after": tr.get("after"), "event": e["q"],
-                                 "args": {k: e[k] for k in e if k not in ("q", "r")}, "reply_fx": e["r"]},
+                                 "args": {k: e[k] for k in e if k not in ("q", "r")}, "reply_fx": e.get("r")},
                           expected="reply matches the specification (Trace_Queries, 1e-9)", actual="trace rejected by TLC at event %d" % v[1])
         else:
             ctx.nontrivial.add("".join(tr["seq"]))
